@@ -538,6 +538,19 @@ def names_filler(text: str, kind: str) -> list[str]:
 
 
 def _names_filler_raw(text: str, kind: str) -> list[str]:
+    if kind == "class":      # an unrelated function that defines local test classes with the fragment's own class names
+        tree = ast.parse(text)
+        names = []
+        for n in ast.walk(tree):
+            if isinstance(n, ast.ClassDef) and n.name not in names and n.name.isascii():
+                names.append(n.name)
+        if not names:
+            return []
+        out = ["def _tv_other_class(_tv_p):"]
+        for x in names[:4]:
+            out += [f"    class {x}(_tv_p.TestCase):", "        pass", ""]
+        out += ["    return _tv_p", "", ""]
+        return out
     """an unrelated function that happens to use the fragment's own variable names as its locals"""
     tree = ast.parse(text)
     names = []
